@@ -70,8 +70,8 @@ class C11(core.Check):
     GEN = ['gen_arrays']
     PROPS = 'props/C11.v'
     MODEL_IMPORTS = ['gen.Gen_arrays', 'model.Arrays', 'model.VarMem']
-    QUICK_CASES = 200
-    THOROUGH_CASES = 4000
+    QUICK_CASES = 150
+    THOROUGH_CASES = 2500
     TRUSTED = ['hand model model/VarMem.v + model/Arrays.v of Scalars.set/get_memory, Arrays.get_memory (as fixed by '
                'fixes/D6.patch), DataSegment.let_/swap_/varptr_/varptr_str_/_get_var_memory tied by correspondence '
                'through a real Session; record/size/index arithmetic and get_name_in_memory regenerated from the '
